@@ -9,6 +9,10 @@ NOTE = ('Trusted: Lean 4.33 kernel; axioms within {propext, Classical.choice, Qu
         'Python generators/oracles; 64-bit usize.')
 
 CLAIMS = {
+ 'C12': dict(category='proof', technique='registry tables regenerated from the running implementation and from the registry file, checked against each other / the pinned copy / the size specification by decide +kernel; general Lean theorems on the lookup model; exhaustive id and name sweeps',
+   text='Kernel-checked on the regenerated tables: runtime_eq_file (the dumped CIPHERS map equals the file mapped through the documented token table, all 10 columns and 3 derived sizes, row for row), pinned_sub_file (every IANA assignment of the pinned copy is present unchanged), runtime_ids_sorted (no duplicate id, key = id), runtime_names_distinct, runtime_derived_sizes. General theorems for every id / name: registry_fromId (some iff listed, and the suite carries the id), registry_fromName (the unique suite with that name, none for any other string). Tie: all 65536 ids through the four lookup routes and the full row through from_id, every name and 8+ perturbations through both name routes, compared with the registry file; name-token agreement by rules over every row.',
+   design_ref='DESIGN.md section 6 C12',
+   note='The agreement of parameters with the algorithm tokens of the IANA name is checked by Python rules over every row (with the two TLS_PSK_DHE_* spellings as listed exceptions), not by a Lean theorem. ' + NOTE),
  'C01': dict(category='proof', technique='Lean 4 closure proofs (Clean = never panic / never Failure) for every modelled entry point, induction over all defragmenter histories; termination by Lean\'s termination checker; heap/format/abort measured on the implementation',
    text='PARTIAL by nature. Proved on the model: X_clean / X_noPanic for 81 parsing entry points (the model produces panic exactly where the Rust can panic: slice indexing, checked arithmetic, expect; the theorems say the guards suffice), recordsParser_noPanic for every operation sequence, and totality of every model function (many0/many1 recursion accepted on the strength of nom\'s progress check). Measured on the implementation (not provable on any executable model): every op on empty/short/garbage/lying-length/cap-sized inputs and all generated families under catch_unwind with overflow-checks and debug-assertions on, Debug/Display of every returned value, peak heap against a fixed linear bound (+10 MiB for the defragmenter), process death.',
    design_ref='DESIGN.md section 6 C01',
